@@ -52,4 +52,12 @@ PROPS = {
                  "the reference extractor in the harness (written from the property text with RFC CIDR ranges) is the implementation-only predicate"],
         assumptions=["C10_xff_valid assumes the canonical form of a parsed address parses again (net.IP.String / ParseIP round trip)"],
     ),
+    "C11": dict(
+        n_quick=6000, n_thorough=250000, incoq=100,
+        level_text="Theorems C11_* (Props/C11.v): for every allow-list, flag combination and scheme://-shaped origin, Access-Control-Allow-Origin is emitted only if the origin is literally listed, '*' is listed, or some listed pattern matches the whole origin as a glob ('*' any run, '?' one char), and its value is '*' or the origin verbatim; matchSubdomain is sound w.r.t. the glob reading (string level, via split/join on '.'); credentials only with an allowed origin; disallowed non-preflight requests are blocked with 401; preflights get 204 without the handler. Model compared with the real middleware incl. the compiled regexp.",
+        technique="Coq proofs (induction over patterns/labels; split/join inverse) + differential correspondence against CORSWithConfig",
+        trusted=["regexp: QuoteMeta + \\* -> .* + \\? -> . + anchoring is modelled as the glob matcher rm ('.' excludes newline); validated against the real compiled regexp by the correspondence (ASCII origins; '.' matches one rune, modelled as one byte)",
+                 "AllowOriginFunc, Skipper and the non-origin CORS headers (methods, headers, max-age) are outside the model"],
+        assumptions=["allow-list entries containing ':' have the shape scheme://rest (their first ':' starts '://'); for other entries matchSubdomain compares a different scheme split than the pattern text (documented restriction of C11_only_allowed)"],
+    ),
 }
